@@ -16,7 +16,8 @@ from vp.gen import datasets as D
 PROP = "C14"
 LEVEL = "exploration"
 RULE = (
-    "generated event datasets: 1-6 individuals (non-contiguous, optionally unsorted ids), 1-8 records each on a 0.5 h "
+    "generated event datasets: 1-6 individuals (non-contiguous, optionally unsorted ids), 1-8 records each (5% of the "
+    "datasets: one individual with 18-30 records) on a 0.5 h "
     "grid with dose/observation ties in both orders, ADDL/II (overlapping later doses), SS, EVID 0-4 incl. resets with "
     "restarting clock, one or two routes (CMT / admid column), optional MDV/EVID/CMT/RATE/ADDL/II/SS columns, renamed "
     "id/idv/dv/dose columns, integer or float columns, dropped decoy columns, shuffled column order; attached to "
@@ -29,9 +30,11 @@ ASSUMPTIONS = [
     "records are written by NM-TRAN conventions: EVID 0 obs/1 dose/2 other/3 reset/4 reset+dose, MDV=1 on every "
     "non-observation, AMT>0 exactly on dose records; the generator's record kind is the ground truth",
     "observation = MDV==0 if an mdv column exists, else EVID==0, else AMT==0 (datainfo type table)",
-    "get_doseid tie rule from its docstring; ties with an SS dose, with several doses, with the first dose of an "
-    "individual and of non-observation records are not judged (docs silent) - only that the answer for an individual "
-    "does not depend on where the individual stands in the file",
+    "get_doseid tie rule from its docstring (observation at the time of a dose -> previous dose; a steady-state dose "
+    "keeps the group, per the code comment and DESIGN guard); ties with several doses, with the first dose of an "
+    "individual, of non-observation records, and clock values that coincide with a dose on the other side of a reset "
+    "are not judged (docs silent) - only that the answer for an individual does not depend on where the individual "
+    "stands in the file",
     "time after dose = time since the most recent explicit or implied (ADDL/II) dose in the same reset segment; records "
     "before the first dose / after a reset without dose are only judged for TAD >= 0",
     "'the modeling functions always return a copy of the model object' (docs/modeling.rst) => the input model's "
@@ -39,12 +42,13 @@ ASSUMPTIONS = [
     "order of ids in get_ids, order of rows in get_baselines, dtypes/names of returned series are not judged",
     "compartment numbers and admids of the structural models are read once in setup() and cross-checked",
 ]
-MIN_NONTRIVIAL = {"quick": 600, "thorough": 8000}
+MIN_NONTRIVIAL = {"quick": 1500, "thorough": 30000}
 REQUIRED_MONITORS = [
     "ids", "observations", "observations_keep_index", "n_observations", "n_observations_per_individual", "doses",
     "mdv", "evid", "doseid", "doseid_tie_rule", "tad_values", "tad_nonneg", "tad_zero_at_dose", "tad_frame",
     "tad_addl", "expand_frame", "expand_amount", "expand_records", "admid", "cmt", "add_admid_frame",
     "add_cmt_frame", "baselines", "covariate_baselines", "time_varying", "input_unchanged", "convert_nonmem_input",
+    "doseid_position_independence", "expand_chronology", "admid_extracted", "cmt_extracted",
 ]
 
 BASES = {}
@@ -111,6 +115,27 @@ def _close(a, b):
 
 def _lst(x):
     return [y.item() if hasattr(y, "item") else y for y in list(x)]
+
+
+def _order_tags(ids0, rec0, rec2_orig):
+    """Which kind of reordering happened: the blocks of individuals and/or the records inside an individual.
+    ids0/rec0: id and record key of the input rows; rec2_orig: record keys of the same records in output order."""
+    id_of = dict(zip(rec0, ids0))
+    blocks0, blocks2 = [], []
+    for r in rec0:
+        if id_of[r] not in blocks0:
+            blocks0.append(id_of[r])
+    for r in rec2_orig:
+        if id_of[r] not in blocks2:
+            blocks2.append(id_of[r])
+    tags = []
+    if blocks0 != blocks2:
+        tags.append("order:individuals")
+    for subj in blocks0:
+        if [r for r in rec0 if id_of[r] == subj] != [r for r in rec2_orig if id_of[r] == subj]:
+            tags.append("order:within-individual")
+            break
+    return tags or ["order:interleaved"]
 
 
 class Evaluator:
@@ -369,7 +394,10 @@ class Evaluator:
             here = [got[i] for i in keep]
             if alone != here:
                 rows = [keep[k] for k in range(len(keep)) if alone[k] != here[k]]
-                tag = "position:first-tie" if all(ref[i][1] == "tie-with-first-dose" for i in rows) else "position:other"
+                first_dose = next(i for i in keep if v.is_dose(i))
+                times = v.times()
+                tied = all(i > first_dose and times[i] == times[first_dose] and not v.is_dose(i) for i in rows)
+                tag = "position:first-tie" if tied else "position:other"
                 c.v("doseid", tag, f"get_doseid of individual {subj} is {here} inside the dataset but {alone} when the "
                     f"same records are the whole dataset (rows {rows})", rows)
 
@@ -391,12 +419,14 @@ class Evaluator:
                 c.v(deriv, "index", f"{deriv}: index {_lst(df2.index)} differs from the input's")
                 ok = False
             rowmap = list(range(len(df0)))
+        changed = {name: f"{df0[name].dtype} -> {df2[name].dtype}" for name in df0.columns
+                   if name in df2.columns and df2[name].dtype != df0[name].dtype}
+        if changed:
+            c.v(deriv, "dtype", f"{deriv}: existing columns changed dtype: {changed}")
+            ok = False
         for name in df0.columns:
             if name not in df2.columns:
                 continue
-            if df2[name].dtype != df0[name].dtype:
-                c.v(deriv, "dtype", f"{deriv}: column {name} changed dtype {df0[name].dtype} -> {df2[name].dtype}")
-                ok = False
             a = _lst(df0[name])
             b = _lst(df2[name])
             bad = [i for i in range(len(a)) if not _same(a[i], b[rowmap[i]])]
@@ -430,7 +460,8 @@ class Evaluator:
             c.v("tad", "records", f"add_time_after_dose: records {rec2} are not the input records {rec0}")
             return
         if rec0 != rec2:
-            c.v("tad", "order", f"add_time_after_dose changed the record order: REC {rec2}, input {rec0}")
+            for tag in _order_tags(v.ids(), rec0, rec2):
+                c.v("tad", tag, f"add_time_after_dose changed the record order ({tag[6:]}): REC {rec2}, input {rec0}")
         rowmap = [rec2.index(r) for r in rec0]
         self.preserved("tad", df2, ["TAD"], rowmap=rowmap, monitor="tad_frame")
         # datainfo keeps the roles and describes the new column
@@ -468,9 +499,10 @@ class Evaluator:
             if not _close(g, e):
                 bad.append((i, g, e, why))
         if neg:
-            seg = v.segments()
-            after_reset = all(seg[i] > 0 and why in ("no-dose-yet", "reset-record", "tie-with-first-dose")
-                              for i, _, why in neg)
+            seg, ids_ = v.segments(), v.ids()
+            # every negative value sits after a reset of the clock and before the first dose record of that segment
+            after_reset = all(seg[i] > 0 and not any(v.is_dose(j) and ids_[j] == ids_[i] and seg[j] == seg[i]
+                                                     for j in range(i)) for i, _, _ in neg)
             c.v("tad", "negative:after-reset" if after_reset else "negative:other",
                 f"add_time_after_dose: negative TAD at (row, TAD, situation) {neg}; TAD = {tad}", neg)
         if nz:
@@ -483,7 +515,7 @@ class Evaluator:
         import pharmpy.modeling as pm
 
         v, c = self.v, self.c
-        if not (v.has("additional") and v.has("ii")):
+        if not (v.has("additional") and v.has("ii") and v.has("dose")):
             res, exc, m = self.call("expand", pm.expand_additional_doses)
             if exc is None:
                 c.hit("expand_noop")
@@ -523,8 +555,9 @@ class Evaluator:
                     f"{[rec2[p] for p in orig_pos]} (+ {sum(is_new)} implied)")
                 continue
             if [rec2[p] for p in orig_pos] != rec0:
-                c.v(deriv, "order", f"expand_additional_doses(flag={flag}) changed the order of the original records: "
-                    f"REC {[rec2[p] for p in orig_pos]}, input {rec0}")
+                for tag in _order_tags(v.ids(), rec0, [rec2[p] for p in orig_pos]):
+                    c.v(deriv, tag, f"expand_additional_doses(flag={flag}) changed the order of the original records "
+                        f"({tag[6:]}): REC {[rec2[p] for p in orig_pos]}, input {rec0}")
             rowmap = [next(p for p in orig_pos if rec2[p] == r) for r in rec0]
             # original records cell by cell
             c.hit("expand_frame")
@@ -773,13 +806,14 @@ def _gone(spec2, deriv, tagprefix):
     return not col.has(deriv, tagprefix)
 
 
-def classify(spec, deriv, tag, detail, hit):
+def classify(spec, deriv, tag, msg, hit):
     v = D.View(spec)
     idname = v.role["id"]
     n_obs = sum(1 for k in spec["kinds"] if k == "obs")
     n_dose = sum(1 for k in spec["kinds"] if k in ("dose", "rdose"))
     ids_present = [i for i, _ in v.individuals()]
-    if tag == "inplace:added-column":
+    if tag == "inplace:added-column" and deriv in ("add_cmt", "add_admid", "nonmem") and \
+            ("'added': ['CMT']" in msg or "'added': ['ADMID']" in msg):
         return "C14/inplace-dataset-column"
     if tag == "raised:KeyError" and idname != "ID":
         hit("delta_check")
@@ -789,22 +823,40 @@ def classify(spec, deriv, tag, detail, hit):
         return "C14/squeeze-single-row"
     if deriv == "nobs" and tag in ("raised:TypeError", "raised:AttributeError") and n_obs == 1:
         return "C14/squeeze-single-row"
-    if tag in ("order", "chronology") and deriv in ("tad", "expand") and ids_present != sorted(ids_present):
+    if tag in ("order:individuals", "chronology") and deriv in ("tad", "expand") and ids_present != sorted(ids_present):
         hit("delta_check")
         if _gone(D.neutral_sorted_ids(spec), deriv, tag):
             return "C14/groupby-reorders-unsorted-ids"
+    if tag == "order:within-individual" and deriv == "tad":
+        hit("delta_check")
+        if _gone(D.neutral_untie(spec), deriv, tag):
+            return "C14/tad-moves-tied-record-before-dose"
+    if deriv == "time_varying" and tag == "raised:IndexError" and not v.covariates:
+        return "C14/no-covariates-indexerror"
+    if deriv in ("cmt", "add_cmt") and tag == "raised:UnboundLocalError" and v.has("admid") \
+            and not v.has("compartment") and v.info["central"] not in v.info["dosing"]:
+        return "C14/get-cmt-central-number-unbound"
+    if v.n == 1 and tag in ("raised:TypeError", "raised:AttributeError") and "numpy.float64" in msg:
+        return "C14/squeeze-single-row"
+    if deriv in ("admid", "add_admid") and tag == "value" and "rdose" in spec["kinds"]:
+        hit("delta_check")
+        if _gone(D.neutral_evid4(spec), deriv, "value"):
+            return "C14/admid-evid4-not-a-dose"
     if tag == "dtype" and deriv == "tad" and any(c["dtype"] != "float64" for c in spec["columns"]):
         hit("delta_check")
         if _gone(D.neutral_float(spec), deriv, "dtype"):
             return "C14/row-apply-upcasts-int-columns"
     if deriv == "doseid" and tag == "position:first-tie":
         return "C14/doseid-first-row-special-case"
-    if deriv in ("doseid", "tad") and tag in ("value", "tadvalue") and max(v.segments()) > 0:
+    if deriv == "tad" and tag.startswith("negative") and max(v.segments()) > 0:
         hit("delta_check")
-        if _gone(D.neutral_segment_times(spec), deriv, tag):
-            return "C14/tie-across-reset-segments"
-    if deriv == "tad" and tag == "negative:after-reset":
-        return "C14/tad-negative-after-reset"
+        if _gone(D.neutral_segment_times(spec), deriv, "negative"):
+            return "C14/tad-negative-after-reset"
+    if idname != "ID" and "ID" in v.colnames and not tag.startswith("inplace"):
+        # another column is called ID: the hard-coded name silently groups by the wrong column
+        hit("delta_check")
+        if _gone(D.neutral_idname(spec), deriv, tag):
+            return "C14/hardcoded-id-column"
     return None
 
 
@@ -833,7 +885,31 @@ def run_case(rng, idx, tier):
     col = evaluate(spec)
     for k, n in col.hits.items():
         c.hit(k, n)
+    unclassified = False
     for deriv, tag, msg, detail in col.viol:
-        key = classify(spec, deriv, tag, detail, c.hit)
+        key = classify(spec, deriv, tag, msg, c.hit)
+        unclassified = unclassified or key is None
         c.violate(key, msg, {"derivation": deriv, "symptom": tag, "detail": detail})
+    if tier != "quick" and idx % 10 and not unclassified:
+        # keep the merged log of the thorough tier small; --replay regenerates the dataset from (seed, idx)
+        c.sample = {k: c.sample[k] for k in ("base", "profile", "constructs", "columns", "kinds", "features")}
     return c
+
+
+def extra_coverage(recs, tier):
+    """Violation counts by mechanism key and by (derivation, symptom): the farm prints only the largest groups."""
+    by_key = Counter()
+    by_symptom = Counter()
+    cases_by_key = {}
+    for r in recs:
+        for v in r["violations"]:
+            k = str(v["key"])
+            by_key[k] += 1
+            d = v.get("detail") or {}
+            by_symptom[f"{k} {d.get('derivation')}:{d.get('symptom')}"] += 1
+            cases_by_key.setdefault(k, set()).add(r["idx"])
+    return {
+        "violations_by_key": dict(sorted(by_key.items())),
+        "violating_cases_by_key": {k: len(v) for k, v in sorted(cases_by_key.items())},
+        "violations_by_key_and_symptom": dict(sorted(by_symptom.items())),
+    }
